@@ -6,14 +6,17 @@ Proved here (model of the repaired tree):
  * locality of the recursive parser at the fuel the drivers use, for every input, prefix and
    nesting: accepted behind one prefix ⇒ accepted with the same size behind every prefix;
  * re-parsing the returned value gives the same size; the parser's answers do not depend on fuel.
- * agreement (`parse_probe_agree`, `parse_open_agree`): whenever the recursive parser accepts a byte
-   string with size `n`, the size probe reports exactly `n` and the non-recursive open returns exactly
-   the last `n` bytes, for every input and fuel.
+ * agreement (`parse_probe_agree`, `parse_open_agree`, `parse_openMessage_agree`,
+   `parse_openList_agree`): whenever the recursive parser accepts a byte string with size `n`, the
+   size probe reports exactly `n`, the non-recursive open returns exactly the last `n` bytes and the
+   typed opens (OpenMessage/OpenList, with and without an error result) return the message / list
+   over exactly those bytes, for every input and fuel.
 The converse direction (the probe accepts more than the parser, which checks recursively) is by
 design; the Go-side oracle of the `c13` stream checks the same agreement on the implementation.
 -/
 import SpecVerif.Lemmas.Probe
 import SpecVerif.Lemmas.Agree
+import SpecVerif.Wire.IEEE
 namespace SpecVerif.C13
 open SpecVerif Pinned
 
@@ -104,5 +107,59 @@ theorem parse_open_agree (F : FloatOps) (fuel : Nat) (b : Bytes) (n : Nat)
   rw [ht]
   have : ¬ b.length < n := by omega
   simp only [this, ↓reduceIte, suffix]
+
+/-- parser and typed open agree (messages): when the recursive message parser accepts `b` with size
+`n`, `OpenMessageErr` and `OpenMessage` return the message whose bytes are exactly the last `n`
+bytes, with the table the parser decoded — never an empty or shorter view -/
+theorem parse_openMessage_agree (F : FloatOps) (fuel : Nat) (b : Bytes) (n : Nat)
+    (h : parseMessage F fuel b = .ok n) :
+    ∃ t, decodeMessageTable b = .ok (t, n) ∧ n ≤ b.length ∧
+      openMessageErr b = .ok ⟨t, lastN n b⟩ ∧ openMessage b = .ok ⟨t, lastN n b⟩ := by
+  obtain ⟨t, ht⟩ := parseMessage_size F fuel b n h
+  have hn : n ≤ b.length := by
+    cases fuel with
+    | zero => simp [parseMessage] at h
+    | succ fuel =>
+      simp only [parseMessage, ht] at h
+      by_cases hlt : n > b.length
+      · simp [suffix, hlt] at h
+      · omega
+  have hs : suffix b n = .ok (lastN n b) := by
+    have : ¬ n > b.length := by omega
+    simp only [suffix, this, ↓reduceIte]
+  have he : openMessageErr b = .ok ⟨t, lastN n b⟩ := by
+    simp only [openMessageErr, ht, hs]; rfl
+  exact ⟨t, ht, hn, he, by simp only [openMessage, he]⟩
+
+/-- parser and typed open agree (lists) -/
+theorem parse_openList_agree (F : FloatOps) (fuel : Nat) (b : Bytes) (n : Nat)
+    (h : parseList F fuel b = .ok n) :
+    ∃ t, decodeListTable b = .ok (t, n) ∧ n ≤ b.length ∧
+      openListErr b = .ok ⟨t, lastN n b⟩ ∧ openList b = .ok ⟨t, lastN n b⟩ := by
+  obtain ⟨t, ht⟩ := parseList_size F fuel b n h
+  have hn : n ≤ b.length := by
+    cases fuel with
+    | zero => simp [parseList] at h
+    | succ fuel =>
+      simp only [parseList, ht] at h
+      by_cases hlt : n > b.length
+      · simp [suffix, hlt] at h
+      · omega
+  have hs : suffix b n = .ok (lastN n b) := by
+    have : ¬ n > b.length := by omega
+    simp only [suffix, this, ↓reduceIte]
+  have he : openListErr b = .ok ⟨t, lastN n b⟩ := by
+    simp only [openListErr, ht, hs]; rfl
+  exact ⟨t, ht, hn, he, by simp only [openList, he]⟩
+
+/-- non-vacuity: the empty message `00 00 50` is accepted with size 3 and opens with all 3 bytes -/
+example : parseMessage IEEE.ieee 4 [0, 0, 0x50] = .ok 3 := by
+  have h1 : decodeMessageTable [0, 0, 0x50] = .ok (⟨[], 0, false⟩, 3) := by decide
+  have h2 : suffix [0, 0, 0x50] 3 = .ok [0, 0, 0x50] := by decide
+  simp only [parseMessage, h1, h2]
+  have h3 : MsgV.fields ⟨⟨[], 0, false⟩, [0, 0, 0x50]⟩ = 0 := by decide
+  rw [h3]; simp only [parseMsgFields]
+
+example : (openMessage [0, 0, 0x50]).bind (fun m => .ok m.bytes) = .ok [0, 0, 0x50] := by decide
 
 end SpecVerif.C13
